@@ -2,6 +2,7 @@ import Ccp.Proofs.Edit
 import Ccp.Proofs.EditLinks
 import Ccp.Proofs.EditFrame
 import Ccp.Proofs.EditMulti
+import Ccp.Proofs.EditPrefix
 /-!
 # C06 — edits change exactly the targeted lines
 
@@ -1317,5 +1318,31 @@ example : isBlank (familyText (indentOf exIb.tree 0) 1 " ".toList (-1) false) = 
     (step exIb (.appendToFamily 0 " ".toList (-1) false)).1.texts = exIb.texts := by decide
 /-- `delete_keeps_parents_full` under `ignore_blank_lines` -/
 example : (step exIb (.delete 1)).1.tree.parents = [0, 0, 2] := by decide
+
+
+/-! ## configs with banner / macro families: the lines above the edit -/
+
+/-- **No edit changes the parent of a line above the edited position — in any config, banner
+and macro families included.**  State: no uncommitted change, C07's invariant, auto-commit
+on, blank lines kept; *no* restriction on the lines of the config or on the payload.  If the
+step leaves the first `n` lines as they were (for an insertion at `c`: `n = c`; for
+`append_to_family` at `familyEndpoint + 1`: the whole family; for `delete i` / a replacement
+at `i`: `n = i`), these lines keep their parents: pass 1 looks backwards and a banner / macro
+walk runs forwards from its start line. -/
+theorem lines_above_keep_parents (s : S) (op : Op) (hd : s.dirty = false) (hinv : FreshInv s)
+    (ha : s.auto = true) (hig : s.cfg.ignoreBlank = false) (n : Nat) (hn : n ≤ s.texts.length)
+    (hpre : (step s op).1.texts.take n = s.texts.take n) :
+    ∀ j, j < n → parentOf (step s op).1.tree j = parentOf s.tree j :=
+  above_edit_parents s op hd hinv ha hig n hn hpre
+
+/-- a config with a banner family (line 0 with body 1, 2 and closing line 3): an insertion
+below it leaves its links alone, and so does an insertion in the middle of the banner for the
+lines above -/
+def exBanner : S :=
+  init exCfg true 1 ["banner motd ^".toList, " hi".toList, "x".toList, "^".toList, "interface X".toList, " shutdown".toList]
+example : exBanner.tree.parents = [0, 0, 0, 0, 4, 4] ∧
+    (step exBanner (.appendToFamily 4 " mtu 9000".toList (-1) false)).1.tree.parents = [0, 0, 0, 0, 4, 4, 4] ∧
+    (step exBanner (.objInsBefore 2 "y".toList)).1.texts.take 2 = exBanner.texts.take 2 ∧
+    (step exBanner (.objInsBefore 2 "y".toList)).1.tree.parents = [0, 0, 0, 0, 0, 5, 5] := by decide
 
 end Ccp.C06
